@@ -53,7 +53,11 @@ Verdict(run) ==
             ELSE "not-linearizable"
         \* the finding is identified by store kind, operation kinds, same/different name, the
         \* violated clause and the phase in which the first writer was preempted
-        dev == "race:" \o run.kind \o ":" \o types \o ":" \o same \o ":" \o clause \o ":" \o run.phase
+        \* (a follow-up answered wrongly after one of the writers had failed with an exception is
+        \*  a class of its own: the failed writer left traces)
+        failed == clause = "wrong-answer-after-overlap" /\ \E w \in ids : run.err[w]
+        dev == "race:" \o run.kind \o ":" \o types \o ":" \o same \o ":" \o clause
+               \o (IF failed THEN ":after-a-writer-failed" ELSE "") \o ":" \o run.phase
     IN  [id |-> run.id, clause |-> clause, dev |-> dev,
          k |-> IF clause = "ok" THEN "ok"
                ELSE IF clause = "stuck" THEN "note"
